@@ -265,6 +265,73 @@ def check_idempotence(mm, rep):
     rep.oblige(not bad, "R16.2", "idempotent", F.loc(mm.fn["span"]), f"merge has no early return for equal operands and the diagonal arm(s) for {bad} can only conflict: merge(x, x) is not x, so a type that is met twice conflicts with itself depending on the order of the fold")
 
 
+def option_combine_table(b):
+    """Evaluate `match (self, other) {..}` of Combine for Option on the four shapes of its input."""
+    ms = [m for m, _ in F.exprs(b["hir"]["value"], "Match") if "Desugar" not in str(m.get("source", ""))]
+    params = [p_ for p_ in b["hir"]["params"] if p_.get("p") == "Bind"]
+    if len(ms) != 1 or len(params) != 2:
+        return False
+    m = ms[0]
+    sc = F.strip(m["scrut"])
+    if sc.get("k") != "Tup" or [F.local_of(F.strip(x)) for x in sc["elems"]] != [p_["local"] for p_ in params]:
+        return False
+
+    def accepts(pat, shape):
+        k = pat.get("p")
+        if k in ("Wild",) or (k == "Bind" and "sub" not in pat):
+            return True
+        if k == "Bind":
+            return accepts(pat["sub"], shape)
+        pv = F.pat_variants(pat)
+        if pv:
+            return {v for _, v in pv} == {shape}
+        return None
+
+    def bind(pat, shape, sym, env):
+        k = pat.get("p")
+        if k == "Bind":
+            env[pat["local"]] = ("some", sym) if shape == "Some" else ("none",)
+            if "sub" in pat:
+                bind(pat["sub"], shape, sym, env)
+        elif k == "TupleStruct" and shape == "Some" and len(pat["pats"]) == 1:
+            sub = pat["pats"][0]
+            if sub.get("p") == "Bind":
+                env[sub["local"]] = sym
+
+    def ev(t, env):
+        if t[0] == "local":
+            return env.get(t[1])
+        if t[0] == "path" and str(t[1]).endswith("::None"):
+            return ("none",)
+        if t[0] == "struct" and str(t[2]).endswith("::Some") and len(t[3]) == 1:
+            x = ev(t[3][0][1], env)
+            return None if x is None else ("some", x)
+        if t[0] == "call" and isinstance(t[1], str) and F.strip_generics(t[1]).split("::")[-1] == "combine" and len(t[2]) == 2:
+            x, y = ev(t[2][0], env), ev(t[2][1], env)
+            return None if x is None or y is None else ("comb", x, y)
+        return None
+
+    want = {("Some", "Some"): ("some", ("comb", "A", "B")), ("Some", "None"): ("some", "A"), ("None", "Some"): ("some", "B"), ("None", "None"): ("none",)}
+    for shape, expect in want.items():
+        got = None
+        for arm in m["arms"]:
+            pat = arm["pat"]
+            if arm.get("guard") or pat.get("p") != "Tuple" or len(pat["pats"]) != 2:
+                return False
+            acc = [accepts(x, sh) for x, sh in zip(pat["pats"], shape)]
+            if None in acc:
+                return False
+            if all(acc):
+                env = {}
+                bind(pat["pats"][0], shape[0], "A", env)
+                bind(pat["pats"][1], shape[1], "B", env)
+                got = ev(T.term(arm["body"], T.Env()), env)
+                break
+        if got != expect:
+            return False
+    return True
+
+
 def check_span_shapes(mm, rep):
     """R16.3 (shape closure): the arm that lets a packed encoding meet dynamic bytes / a dynamic array accepts a finite family
     of span shapes per span count. Associativity needs that family to be closed: a k-span encoding is accepted exactly when each
@@ -534,26 +601,9 @@ def check_combine(fx, rep):
             if st.startswith("std::option::Option"):
                 if it["name"] == "combine":
                     seen.add("opt-combine")
-                    # table over {None, Some}: (Some,Some)->Some(combine), (Some,None)->Some(a), (None,Some)->Some(b), (None,None)->None
-                    ok = True
-                    ms = [m for m, _ in F.exprs(b["hir"]["value"], "Match")]
-                    if len(ms) != 1 or len(ms[0]["arms"]) != 4:
-                        ok = False
-                    else:
-                        for a in ms[0]["arms"]:
-                            p = a["pat"]
-                            if p.get("p") != "Tuple":
-                                ok = False
-                                continue
-                            kinds = tuple((F.pat_variants(x) and next(iter(F.pat_variants(x)))[1]) for x in p["pats"])
-                            t = T.term(a["body"], T.Env())
-                            s = T.short(t)
-                            if kinds == ("Some", "Some"):
-                                ok = ok and "combine(" in s and s.startswith("std::prelude::v1::Some") or ok and "combine" in s
-                            elif kinds == ("None", "None"):
-                                ok = ok and "None" in s and "Some" not in s
-                            elif "Some" in kinds:
-                                ok = ok and "Some" in s and "combine" not in s
+                    # table over {None, Some}: (Some,Some)->Some(combine), (Some,None)->Some(a), (None,Some)->Some(b), (None,None)->None,
+                    # evaluated: for each of the four input shapes the first arm that accepts it must answer the expected value
+                    ok = option_combine_table(b)
                     rep.oblige(ok, "R16.4", "combine:Option", F.loc(b["span"]), "Combine for Option is not `inner combine with None as identity`")
     rep.floor("R16.4", len(seen), 3, "Combine implementations (HashSet combine/identity, Option combine)")
 
